@@ -21,7 +21,7 @@ ASSUMPTIONS = [
     "name annotations of recognised wrappers are confirmed by the Gallina checker name_confirmed on every case (op 1305)",
     "main stream: no JSON-encoded string hides a document below its top level (runner checks hidden_free on every case); the separate F16 stream "
     "builds exactly such inputs and their divergence from the property's reading is matched as known finding F16",
-    "no address range wider than 256 addresses is generated (separate known defect 11/12)",
+    "address ranges of any width are part of the domain since defects F11/F12 were repaired (the former guard is kept behind VERIF_NARROW_ONLY)",
     "no object whose only key names an intrinsic function, other than {Ref: AWS::Region} (resolve() takes it for a function call: known defect 18 "
     "of C03/C05); such inputs are declined (EUndefined) so that the shrinker cannot drift into that defect",
     "documents are observed through resource.policy_documents / all_statement_conditions / IAMRole.assume_role_as_optionally_named_policy_document_list "
